@@ -178,6 +178,11 @@ def get_func(frame: FrameType) -> Optional[Callable[..., Any]]:
 
 RETURN_VALUE_OPCODE = opcode.opmap["RETURN_VALUE"]
 YIELD_VALUE_OPCODE = opcode.opmap["YIELD_VALUE"]
+# Python 3.12 compiles `return <constant>` (including the implicit `return None`)
+# to RETURN_CONST instead of LOAD_CONST + RETURN_VALUE.
+RETURN_OPCODES = {RETURN_VALUE_OPCODE}
+if "RETURN_CONST" in opcode.opmap:
+    RETURN_OPCODES.add(opcode.opmap["RETURN_CONST"])
 
 # A CodeFilter is a predicate that decides whether or not a the call for the
 # supplied code object should be traced.
@@ -258,7 +263,7 @@ class CallTracer:
         elif last_opcode == YIELD_VALUE_OPCODE:
             trace.add_yield_type(typ)
         else:
-            if last_opcode == RETURN_VALUE_OPCODE:
+            if last_opcode in RETURN_OPCODES:
                 trace.return_type = typ
             del self.traces[frame]
             self.logger.log(trace)
